@@ -184,8 +184,8 @@ def run_kani_group(group_key, units, jobs=4):
             r.raw_tail = out[-3000:]
             r.wall_s = wall
         return list(results.values())
-    stats = {c['harness_id']: c.get('cbmc_stats', {}) for c in data.get('cbmc', [])}
-    pdet = {c['harness_id']: c.get('property_details', {}) for c in data.get('property_details', [])}
+    stats = {c['harness_id']: (c.get('cbmc_stats') or {}) for c in data.get('cbmc', [])}
+    pdet = {c['harness_id']: (c.get('property_details') or {}) for c in data.get('property_details', [])}
     for res in data.get('verification_results', {}).get('results', []):
         hid = res['harness_id']
         r = results.get(hid)
@@ -193,9 +193,9 @@ def run_kani_group(group_key, units, jobs=4):
             continue
         u = r.unit
         r.wall_s = res.get('duration_ms', 0) / 1000.0
-        st = stats.get(hid, {})
+        st = stats.get(hid) or {}
         r.solver_s = round((st.get('runtime_decision_procedure_s') or 0.0) + (st.get('runtime_symex_s') or 0.0), 3)
-        pd = pdet.get(hid, {})
+        pd = pdet.get(hid) or {}
         checks = res.get('checks', [])
         covers = [c for c in checks if c.get('category') == 'cover' or c.get('status') in ('SATISFIED', 'UNSATISFIABLE', 'Satisfied', 'Unsatisfiable')]
         normal = [c for c in checks if c not in covers]
